@@ -1,8 +1,571 @@
 /-
-C02 — property theorems (under construction; see DESIGN.md section 8).
+C02 — Acting as receiver, every QoS 1 PUBLISH gets exactly one PUBACK, every
+QoS 2 PUBLISH a PUBREC, every PUBREL a PUBCOMP; QoS 1 is handed on once per
+PUBLISH received, QoS 2 exactly once per exchange, at PUBREL time, with the
+content of the first PUBLISH.
+
+Property theorems only (helper lemmas: `Proofs/BrokerQos*.lean`), stated on the
+code-shaped broker model `Model/Broker.lean` for *all* broker states satisfying
+the representation invariant `BInv` (proved to hold initially and to be preserved
+by every `step`), all connection identifiers, packets and histories.
 -/
-import Mqtt.Model.Broker
-import Mqtt.Spec.Broker
+import Mqtt.Proofs.BrokerQosFifo
+import Mqtt.Proofs.BrokerQosHistory
+import Mqtt.Proofs.BrokerQosPersist
+import Mqtt.Proofs.BrokerQosSpec
+import Mqtt.Properties.C13
 
 namespace Mqtt.Properties.C02
+
+open Mqtt.Iface.Broker Mqtt.Model.Broker Mqtt.Proofs.BrokerQos
+open Mqtt.Generated (tPUBREL)
+
+/-! ## 0. Concrete states for the non-vacuity examples
+
+Connection 1 ("a", CleanSession=0) subscribes `t` at QoS 2 and `u` at QoS 0,
+an in-process callback 1000 subscribes `t` at QoS 1, connection 2 ("b",
+CleanSession=1) is the publisher. -/
+
+def connectPkt (cid : Bytes) (clean : Bool) : First :=
+  .connect { protoName := [77, 81, 84, 84], version := 4, clean := clean, will := none, clientId := cid }
+
+def demoEvs : List Ev :=
+  [.first 1 (connectPkt [97] false) true,
+   .first 2 (connectPkt [98] true) true,
+   .packet 1 (.subscribe 1 [([116], 2), ([117], 0)]),
+   .srvSub 1000 [116] 1]
+
+def demo : B := (run {} demoEvs).1
+
+/-! ## (a) what a hand-over is -/
+
+/-- **(a)** Every output of `onPublish`, of the subscriber loop `fanout` and of
+`releaseAll` is a PUBLISH written to a connection or a callback invocation —
+never an acknowledgement, never a `closed` — and none of them touches the
+connection table, the session objects, the session store, the session
+reference counter or the subscription tree (only the retained tree and the
+packet-identifier counter may change). -/
+theorem onPublish_outputs (b : B) (m : Msg) (subs : List (Nat × Nat)) (l : List QEntry) :
+    (Frame b (onPublish b m).1 ∧ ∀ o ∈ (onPublish b m).2.2.1, HandOver o) ∧
+    (Frame b (fanout b m subs).1 ∧ (fanout b m subs).1.topics = b.topics ∧
+      ∀ o ∈ (fanout b m subs).2.2, HandOver o) ∧
+    (Frame b (releaseAll b l).1 ∧ ∀ o ∈ (releaseAll b l).2, HandOver o) :=
+  ⟨⟨(onPublish_frame b m).1, fun o ho => handOver_of ((onPublish_frame b m).2 o ho)⟩,
+   ⟨(fanout_frame b m subs).1, (fanout_frame b m subs).2.1,
+    fun o ho => handOver_of ((fanout_frame b m subs).2.2 o ho)⟩,
+   ⟨(releaseAll_frame b l).1, fun o ho => handOver_of ((releaseAll_frame b l).2 o ho)⟩⟩
+
+/-- on the demo state a retained QoS 1 publish of `t` reaches connection 1
+(RETAIN cleared) and the callback (object as is, E10) -/
+example : (onPublish demo ⟨{ qos := 1, retain := true, topic := [116], pktid := 7, payload := [1] }, false⟩).2.2.1 =
+    [.send 1 (.publish { qos := 1, topic := [116], pktid := 7, payload := [1] }),
+     .call 1000 { qos := 1, retain := true, topic := [116], pktid := 7, payload := [1] }] := by
+  decide
+
+/-! ## The representation invariant
+
+`BInv b` (`Proofs/BrokerQosInv.lean`): session references are pairwise distinct
+and below the counter new sessions draw from; the session reference of every
+connection in the table resolves to a session object; every session's inbound
+QoS 2 queue has pairwise distinct identifiers, entry states "waiting" (0) or
+"PUBREL seen" only, and an oldest entry that is still waiting. -/
+
+/-- The invariant holds in the initial broker and is preserved by every event —
+hence in every reachable state. -/
+theorem C02_inv :
+    BInv ({} : B) ∧ (∀ b ev, BInv b → BInv (step b ev).1) ∧ (∀ b evs, BInv b → BInv (run b evs).1) :=
+  ⟨inv_init, fun _ ev h => step_inv h ev, fun _ evs h => run_inv h evs⟩
+
+example : BInv demo := run_inv inv_init demoEvs
+
+/-- under the invariant a live connection has a session object -/
+theorem C02_live_session (b : B) (hI : BInv b) (c : Nat) (hl : b.alive c = true) :
+    ∃ s, sessOf b c = some s := by
+  obtain ⟨cn, s, hc, _, hs, _⟩ := hI.live hl
+  exact ⟨s, sessOf_eq hc hs⟩
+
+/-! ## (b) QoS 1 and QoS 0 PUBLISH -/
+
+/-- **(b)** On a live connection a QoS 1 PUBLISH is answered by `PUBACK` with its
+identifier as the *first* output, this is the only acknowledgement among the
+outputs, and the remaining outputs and the new state are exactly those of one
+`onPublish` of the received message — one hand-over per PUBLISH received (a
+repeated PUBLISH, DUP or not, is handed on again: QoS 1 is at-least-once).  A
+QoS 0 PUBLISH produces exactly the outputs of `onPublish`, no acknowledgement. -/
+theorem C02_qos1 (b : B) (hI : BInv b) (c : Nat) (hl : b.alive c = true) (p : Pub) :
+    (p.qos = 1 →
+      packet b c (.publish p) =
+        ((onPublish b ⟨p, false⟩).1, .send c (.puback p.pktid) :: (onPublish b ⟨p, false⟩).2.2.1) ∧
+      (packet b c (.publish p)).2.filter isAck = [.send c (.puback p.pktid)]) ∧
+    (p.qos = 0 →
+      packet b c (.publish p) = ((onPublish b ⟨p, false⟩).1, (onPublish b ⟨p, false⟩).2.2.1) ∧
+      (packet b c (.publish p)).2.filter isAck = []) := by
+  obtain ⟨cn, s, hc, ha, hs, _⟩ := hI.live hl
+  have hf := filter_isAck_handOvers (onPublish_frame b ⟨p, false⟩).2
+  constructor
+  · intro hq
+    rw [packet_publish1 hc ha hs p hq]
+    refine ⟨rfl, ?_⟩
+    simp only [List.filter_cons, isAck, ↓reduceIte, hf]
+  · intro hq
+    rw [packet_publish0 hc ha hs p hq]
+    exact ⟨rfl, hf⟩
+
+/-- connection 2 publishes `t` at QoS 1 with identifier 7: PUBACK 7 first, then
+the two hand-overs (connection 1 at QoS 1, callback 1000) -/
+example : (packet demo 2 (.publish { qos := 1, topic := [116], pktid := 7, payload := [1] })).2 =
+    [.send 2 (.puback 7),
+     .send 1 (.publish { qos := 1, topic := [116], pktid := 7, payload := [1] }),
+     .call 1000 { qos := 1, topic := [116], pktid := 7, payload := [1] }] ∧
+    demo.alive 2 = true := by
+  decide
+
+/-! ## (c) QoS 2 PUBLISH -/
+
+/-- **(c)** On a live connection a QoS 2 PUBLISH is answered by exactly
+`[PUBREC id]` — nothing is handed on at PUBLISH time — and the only change of
+state is that the session's inbound queue becomes `q2Wait pub2in p`: unchanged
+if an exchange with this identifier is already open (the stored content stays
+that of the *first* PUBLISH), otherwise the new exchange is appended at the back
+in state "waiting" with the content of this PUBLISH. -/
+theorem C02_qos2_publish (b : B) (hI : BInv b) (c : Nat) (hl : b.alive c = true) (p : Pub) (hq : p.qos = 2) :
+    ∃ s, sessOf b c = some s ∧
+      packet b c (.publish p) =
+        (b.setSess { s with pub2in := q2Wait s.pub2in p }, [.send c (.pubrec p.pktid)]) ∧
+      sessOf (packet b c (.publish p)).1 c = some { s with pub2in := q2Wait s.pub2in p } ∧
+      ((s.pub2in.any fun e => e.id == p.pktid) = true → q2Wait s.pub2in p = s.pub2in) ∧
+      ((s.pub2in.any fun e => e.id == p.pktid) = false → q2Wait s.pub2in p = s.pub2in ++ [⟨p.pktid, 0, p⟩]) := by
+  obtain ⟨cn, s, hc, ha, hs, _⟩ := hI.live hl
+  refine ⟨s, sessOf_eq hc hs, packet_publish2 hc ha hs p hq, ?_, q2Wait_open _ p, q2Wait_new _ p⟩
+  rw [packet_publish2 hc ha hs p hq]
+  exact sessOf_after hc hs _ (Frame.refl _)
+
+/-- PUBLISH id 5, a DUP repetition with another payload, PUBLISH id 6: two
+PUBRECs for 5, one for 6, nothing handed on, and the queue holds the first
+content of 5 followed by 6 -/
+example :
+    let evs : List Ev :=
+      [.packet 2 (.publish { qos := 2, topic := [116], pktid := 5, payload := [1] }),
+       .packet 2 (.publish { dup := true, qos := 2, topic := [116], pktid := 5, payload := [2] }),
+       .packet 2 (.publish { qos := 2, topic := [116], pktid := 6, payload := [3] })]
+    (run demo evs).2 = [[.send 2 (.pubrec 5)], [.send 2 (.pubrec 5)], [.send 2 (.pubrec 6)]] ∧
+    (sessOf (run demo evs).1 2).map (·.pub2in) =
+      some [⟨5, 0, { qos := 2, topic := [116], pktid := 5, payload := [1] }⟩,
+            ⟨6, 0, { qos := 2, topic := [116], pktid := 6, payload := [3] }⟩] := by
+  decide
+
+/-! ## (d) PUBREL and PUBREC -/
+
+/-- `releaseAll` hands the released entries on one by one, oldest first: for each
+entry exactly the outputs of `onPublish` of its stored content (on the state the
+previous hand-overs left). -/
+theorem C02_releaseAll (b : B) (e : QEntry) (l : List QEntry) :
+    releaseAll b [] = (b, []) ∧
+    releaseAll b (e :: l) =
+      ((releaseAll (onPublish b ⟨e.msg, false⟩).1 l).1,
+       (onPublish b ⟨e.msg, false⟩).2.2.1 ++ (releaseAll (onPublish b ⟨e.msg, false⟩).1 l).2) :=
+  ⟨rfl, rfl⟩
+
+/-- **(d)** On a live connection a PUBREL marks the open exchange with its
+identifier, takes the longest PUBREL-marked prefix `rel` off the session's
+inbound queue, hands the entries of `rel` on (`releaseAll`), and then writes
+exactly one `PUBCOMP id`, which is the *last* output and the only
+acknowledgement among the outputs.  `rel` followed by what stays queued is the
+marked queue, and everything in `rel` is PUBREL-marked.  An identifier without
+an open exchange releases nothing, leaves the queue as it is, and still gets
+its PUBCOMP. -/
+theorem C02_pubrel (b : B) (hI : BInv b) (c : Nat) (hl : b.alive c = true) (id : Nat) :
+    ∃ s, sessOf b c = some s ∧
+      let rest := (q2Acked (q2Ack s.pub2in id)).1
+      let rel := (q2Acked (q2Ack s.pub2in id)).2
+      let b1 := b.setSess { s with pub2in := rest }
+      packet b c (.pubrel id) = ((releaseAll b1 rel).1, (releaseAll b1 rel).2 ++ [.send c (.pubcomp id)]) ∧
+      (packet b c (.pubrel id)).2.getLast? = some (.send c (.pubcomp id)) ∧
+      (packet b c (.pubrel id)).2.filter isAck = [.send c (.pubcomp id)] ∧
+      sessOf (packet b c (.pubrel id)).1 c = some { s with pub2in := rest } ∧
+      rel ++ rest = q2Ack s.pub2in id ∧ (∀ e ∈ rel, e.state = tPUBREL) ∧
+      ((∀ e ∈ s.pub2in, e.id ≠ id) →
+        rel = [] ∧ rest = s.pub2in ∧ (packet b c (.pubrel id)).2 = [.send c (.pubcomp id)]) := by
+  obtain ⟨cn, s, hc, ha, hs, _⟩ := hI.live hl
+  have hq : QInv s.pub2in := by
+    have := hI.queues cn.sess
+    simpa [pub2inOf, hs] using this
+  refine ⟨s, sessOf_eq hc hs, ?_⟩
+  simp only
+  have hp := packet_pubrel hc ha hs id
+  have hf := releaseAll_frame (b.setSess { s with pub2in := (q2Acked (q2Ack s.pub2in id)).1 })
+    (q2Acked (q2Ack s.pub2in id)).2
+  refine ⟨hp, ?_, ?_, ?_, q2Acked_append _, ?_, ?_⟩
+  · rw [hp]; simp
+  · rw [hp]
+    simp only [List.filter_append, filter_isAck_handOvers hf.2, List.nil_append, List.filter_cons,
+      List.filter_nil, isAck, ↓reduceIte]
+  · rw [hp]; exact sessOf_after hc hs _ hf.1
+  · exact q2Acked_rel_marked _
+  · intro hno
+    rw [hp, q2Ack_unknown _ _ hno, q2Acked_headOpen hq]
+    exact ⟨rfl, rfl, rfl⟩
+
+/-- a PUBREC is answered by exactly `[PUBREL id]`; nothing else changes -/
+theorem C02_pubrec (b : B) (hI : BInv b) (c : Nat) (hl : b.alive c = true) (id : Nat) :
+    packet b c (.pubrec id) = (b, [.send c (.pubrel id)]) := by
+  obtain ⟨cn, s, hc, ha, hs, _⟩ := hI.live hl
+  exact packet_pubrec hc ha hs id
+
+/-- exchanges 5 and 6 open (contents [1] and [3]); PUBREL 6 first: PUBCOMP 6 only,
+nothing handed on (5 is older and still open); PUBREL 9 (never opened): PUBCOMP 9
+only; PUBREL 5: both handed on in opening order with their first contents, then
+PUBCOMP 5; a repeated PUBREL 5: PUBCOMP 5 only; PUBREC 3: PUBREL 3 -/
+example :
+    let evs : List Ev :=
+      [.packet 2 (.publish { qos := 2, topic := [116], pktid := 5, payload := [1] }),
+       .packet 2 (.publish { dup := true, qos := 2, topic := [116], pktid := 5, payload := [2] }),
+       .packet 2 (.publish { qos := 2, topic := [116], pktid := 6, payload := [3] }),
+       .packet 2 (.pubrel 6), .packet 2 (.pubrel 9), .packet 2 (.pubrel 5), .packet 2 (.pubrel 5),
+       .packet 2 (.pubrec 3)]
+    (run demo evs).2.drop 3 =
+      [[.send 2 (.pubcomp 6)], [.send 2 (.pubcomp 9)],
+       [.send 1 (.publish { qos := 2, topic := [116], pktid := 5, payload := [1] }),
+        .call 1000 { qos := 1, topic := [116], pktid := 5, payload := [1] },
+        .send 1 (.publish { qos := 2, topic := [116], pktid := 6, payload := [3] }),
+        .call 1000 { qos := 1, topic := [116], pktid := 6, payload := [3] },
+        .send 2 (.pubcomp 5)],
+       [.send 2 (.pubcomp 5)], [.send 2 (.pubrel 3)]] ∧
+    (sessOf (run demo evs).1 2).map (·.pub2in) = some [] := by
+  decide
+
+/-! ## (f) the inbound QoS 2 list is the ack queue of Core C
+
+The broker model keeps `Pub2in` as a list with `q2Wait`/`q2Ack`/`q2Acked`.
+Under the projection `proj enc ackb` (request bytes `enc msg`, PUBREL bytes
+`ackb id`, no completion callback) these are `Fifo.register`, `Fifo.ackId` with
+a PUBREL and `Fifo.collect` of the FIFO specification — and `C13_refines` says
+the ring-based `Ackqueue` of `sessions/ackqueue.go` refines that specification.
+`States q` (entry states are 0 or PUBREL) is part of `BInv`. -/
+
+open Mqtt.Spec in
+/-- **(f), simulation.**  Each list operation is the FIFO specification's
+operation on the projected queue, and so is every history of them
+(`Fifo.run` on the interface operations `toOp`), outputs included. -/
+theorem C02_pub2in_is_fifo (enc : Pub → List UInt8) (ackb : Nat → List UInt8) (q : List QEntry)
+    (hq : States q) :
+    (∀ pg p, Fifo.register ⟨q.map (proj enc ackb), pg⟩ ⟨Fifo.PUBLISH, 0, p.pktid, enc p, [], 0⟩ =
+        ⟨(q2Wait q p).map (proj enc ackb), pg⟩) ∧
+    (∀ pg id, Fifo.ackId ⟨q.map (proj enc ackb), pg⟩ Fifo.PUBREL id (ackb id) =
+        ⟨(q2Ack q id).map (proj enc ackb), pg⟩) ∧
+    (∀ pg, Fifo.collect ⟨q.map (proj enc ackb), pg⟩ =
+        (⟨(q2Acked q).1.map (proj enc ackb), pg⟩, (q2Acked q).2.map (proj enc ackb))) ∧
+    (∀ ops : List QOp,
+      (Fifo.run ⟨q.map (proj enc ackb), none⟩ (ops.map (toOp enc ackb))).1 =
+        ⟨(qrun q ops).1.map (proj enc ackb), none⟩ ∧
+      (Fifo.run ⟨q.map (proj enc ackb), none⟩ (ops.map (toOp enc ackb))).2 =
+        (List.zip (qrun q ops).2 ops).map (fun x => qout enc ackb x.1 x.2) ∧
+      States (qrun q ops).1) :=
+  ⟨fun pg p => sim_register enc ackb q pg p, fun pg id => sim_ackId enc ackb q pg id,
+   fun pg => sim_collect enc ackb q hq pg, fun ops => sim_run enc ackb q hq ops⟩
+
+/-- what the broker does to the queue per packet is one `Wait`, resp. one `Ack`
+followed by `Acked`; and in every state satisfying the invariant the queues
+meet the side condition of the simulation -/
+theorem C02_pub2in_ops (b : B) (hI : BInv b) (r : Nat) (q : List QEntry) (p : Pub) (id : Nat) :
+    States (pub2inOf b r) ∧
+    (p.qos = 2 → newQ (.publish p) q = (qstep q (.wait p)).1) ∧
+    newQ (.pubrel id) q = (qstep (qstep q (.ack id)).1 .acked).1 ∧
+    (q2Acked (q2Ack q id)).2 = (qstep (qstep q (.ack id)).1 .acked).2 :=
+  ⟨(hI.queues r).states, fun h => by simp [newQ, qstep, h], rfl, rfl⟩
+
+open Mqtt.Model.AckQueue Mqtt.Proofs.AckQueue in
+/-- **(f), composed with C13.**  Starting from the queue a session creates, after
+any history of `Wait`(QoS 2 PUBLISH) / `Ack`(PUBREL) / `Acked` calls the
+abstraction of the ring-based ack queue *is* the projection of the list the
+broker model keeps, and every `Acked` hands back the projection of the entries
+the list releases. -/
+theorem C02_pub2in_is_ackqueue (enc : Pub → List UInt8) (ackb : Nat → List UInt8) (ops : List QOp) :
+    abs (Mqtt.Model.AckQueue.run init (ops.map (toOp enc ackb))).1 =
+      ⟨(qrun [] ops).1.map (proj enc ackb), none⟩ ∧
+    (Mqtt.Model.AckQueue.run init (ops.map (toOp enc ackb))).2.map C13.outAbs =
+      (List.zip (qrun [] ops).2 ops).map (fun x => qout enc ackb x.1 x.2) := by
+  obtain ⟨h1, h2⟩ := C13.C13_refines_init (ops.map (toOp enc ackb))
+  obtain ⟨s1, s2, _⟩ := sim_run enc ackb [] (by intro e he; cases he) ops
+  exact ⟨h1.trans s1, h2.trans s2⟩
+
+/-- the ring-based queue and the list side by side on a history with a repeated
+PUBLISH and out-of-order PUBRELs -/
+example :
+    let enc : Pub → List UInt8 := fun p => p.topic ++ p.payload
+    let ackb : Nat → List UInt8 := fun id => [0x62, 2, 0, id.toUInt8]
+    let p5 : Pub := { qos := 2, topic := [116], pktid := 5, payload := [1] }
+    let p5' : Pub := { dup := true, qos := 2, topic := [116], pktid := 5, payload := [2] }
+    let p6 : Pub := { qos := 2, topic := [116], pktid := 6, payload := [3] }
+    let ops : List QOp := [.wait p5, .wait p5', .wait p6, .ack 6, .acked, .ack 5, .acked]
+    (qrun [] ops).2 = [[], [], [], [], [], [], [⟨5, 6, p5⟩, ⟨6, 6, p6⟩]] ∧
+    (Mqtt.Model.AckQueue.run Mqtt.Model.AckQueue.init (ops.map (toOp enc ackb))).2.map C13.outAbs =
+      [.ok true, .ok true, .ok true, .ok true, .released [], .ok true,
+       .released [⟨3, 6, 5, [116, 1], [0x62, 2, 0, 5], 0⟩, ⟨3, 6, 6, [116, 3], [0x62, 2, 0, 6], 0⟩]] := by
+  decide +kernel
+
+/-! ## (e) exactly once over histories
+
+Indexed by the session object `r` whose inbound queue holds the open
+exchanges: `bound b c r` says that connection `c` is live and bound to `r`.
+(A connection is bound to one session object for its whole life; a persistent
+session object outlives its connections, and with overlapping client
+identifiers — E4 — two live connections can share one.)
+
+* `stepOpened b r ev` — the exchange `ev` opens on `r`: a QoS 2 PUBLISH on a
+  connection bound to `r` whose identifier has no open exchange;
+* `stepHanded b r ev` — the contents `ev` takes off the queue of `r` and hands
+  on: the prefix released by a PUBREL on a connection bound to `r`
+  (`C02_handed_is_output`: these are exactly the hand-overs among the outputs of
+  that step, and by `C02_qos2_publish` a PUBLISH step hands on nothing);
+* `opened`, `handed` — accumulated along a history. -/
+
+/-- **Isolation.**  Only a packet on a live connection bound to session object
+`r` can change the inbound QoS 2 queue of `r`: a QoS 2 PUBLISH (`q2Wait`) or a
+PUBREL (mark, drop the released prefix).  Every other event — any packet on a
+connection bound to another session, first packets (a resumed session keeps
+its queue, a new session object gets a fresh reference), connection ends,
+wills, the in-process API — leaves it exactly as it is. -/
+theorem C02_queue_frame (b : B) (hI : BInv b) (ev : Ev) (r : Nat) :
+    pub2inOf (step b ev).1 r =
+      match ev with
+      | .packet c p => if bound b c r then newQ p (pub2inOf b r) else pub2inOf b r
+      | _ => pub2inOf b r :=
+  step_pub2in hI ev r
+
+/-- **(e) Exactly once, in order, first content.**  Over any history of events
+on any connections, for every session object: the contents handed over by
+PUBREL steps so far, followed by the contents of the exchanges still open, are
+the contents already queued at the start followed by the first PUBLISH of every
+exchange opened since, in opening order.  Hence every exchange is handed over
+at most once, none is lost or invented, the hand-over happens in a PUBREL step
+(never at PUBLISH time), in opening order, and what is handed over is the
+content of the exchange's first PUBLISH — whatever else arrives in between on
+this or any other connection. -/
+theorem C02_exactly_once (b : B) (hI : BInv b) (evs : List Ev) (r : Nat) :
+    handed b r evs ++ (pub2inOf (run b evs).1 r).map (·.msg) =
+      (pub2inOf b r).map (·.msg) ++ opened b r evs :=
+  run_conservation hI evs r
+
+/-- … from the initial broker: handed over ++ still open = opened. -/
+theorem C02_exactly_once_init (evs : List Ev) (r : Nat) :
+    handed {} r evs ++ (pub2inOf (run {} evs).1 r).map (·.msg) = opened {} r evs := by
+  have := run_conservation inv_init evs r
+  simpa [pub2inOf, B.getSess] using this
+
+/-- The contents `stepHanded` counts for a PUBREL step are exactly what that
+step hands on: its outputs are `releaseAll` of the released entries (for each
+its `onPublish` outputs, `C02_releaseAll`) followed by the PUBCOMP. -/
+theorem C02_handed_is_output (b : B) (hI : BInv b) (c r id : Nat) (hb : bound b c r = true) :
+    ∃ s, sessOf b c = some s ∧ s.ref = r ∧ pub2inOf b r = s.pub2in ∧
+      let rel := (q2Acked (q2Ack s.pub2in id)).2
+      let b1 := b.setSess { s with pub2in := (q2Acked (q2Ack s.pub2in id)).1 }
+      (step b (.packet c (.pubrel id))).2 = (releaseAll b1 rel).2 ++ [.send c (.pubcomp id)] ∧
+      rel.map (·.msg) = stepHanded b r (.packet c (.pubrel id)) := by
+  obtain ⟨_, cn, s, hc, ha, hs, _, hr, hq⟩ := bound_sess hI hb
+  refine ⟨s, sessOf_eq hc hs, hr, hq, ?_, ?_⟩
+  · simp only [step]; rw [packet_pubrel hc ha hs id]
+  · simp [stepHanded, hb, hq]
+
+/-- **(e) Eager release.**  (1) In every reachable state the oldest open exchange
+of every session has not had its PUBREL (so nothing that could be handed over
+is ever left waiting).  (2) If every older open exchange is PUBREL-marked, the
+PUBREL of exchange `e` hands `e` over in that very step.  (3) If after a PUBREL
+an exchange with its identifier is still open, it is marked and the oldest open
+exchange is another one that is still waiting for its PUBREL (FIFO head
+blocking — the documented deferral). -/
+theorem C02_release_eager (b : B) (hI : BInv b) (r : Nat) :
+    (∀ evs e, (pub2inOf (run b evs).1 r).head? = some e → e.state = 0) ∧
+    (∀ c pre e post, bound b c r = true → pub2inOf b r = pre ++ e :: post →
+      (∀ x ∈ pre, x.state = tPUBREL) →
+      stepHanded b r (.packet c (.pubrel e.id)) =
+        pre.map (·.msg) ++ e.msg ::
+          ((q2Ack post e.id).takeWhile fun x => x.state == tPUBREL).map (·.msg)) ∧
+    (∀ c id, bound b c r = true →
+      ∀ x ∈ pub2inOf (step b (.packet c (.pubrel id))).1 r, x.id = id →
+        x.state = tPUBREL ∧
+        ∃ h, (pub2inOf (step b (.packet c (.pubrel id))).1 r).head? = some h ∧ h.state = 0 ∧ h.id ≠ id) := by
+  refine ⟨?_, ?_, ?_⟩
+  · intro evs e he
+    have hq := (run_inv hI evs).queues r
+    rcases hq.states e (List.mem_of_mem_head? he) with h | h
+    · exact h
+    · exact absurd h (hq.head e he)
+  · intro c pre e post hb hq hpre
+    simp only [stepHanded, hb, ↓reduceIte, hq]
+    rw [q2Acked_release pre post e e.id hpre rfl]
+    simp
+  · intro c id hb
+    rw [step_pub2in hI _ r]
+    simp only [hb, ↓reduceIte, newQ]
+    exact pubrel_blocked (hI.queues r) id
+
+/-- Connection 2 (session object 2) opens 5 and 6 while connection 1 opens its
+own exchange 5 (session object 1), a DUP of 5 with another payload arrives, the
+in-process API publishes, connection 1 subscribes more; PUBREL 6 then PUBREL 5
+on connection 2.  Session 2: opened = handed = [first 5, 6]; session 1:
+exchange 5 still open. -/
+example :
+    let p5 : Pub := { qos := 2, topic := [116], pktid := 5, payload := [1] }
+    let p6 : Pub := { qos := 2, topic := [116], pktid := 6, payload := [3] }
+    let o5 : Pub := { qos := 2, topic := [117], pktid := 5, payload := [9] }
+    let evs : List Ev :=
+      [.packet 2 (.publish p5), .packet 1 (.publish o5),
+       .packet 2 (.publish { p5 with dup := true, payload := [2] }),
+       .srvPub { qos := 0, topic := [116], payload := [7] },
+       .packet 2 (.publish p6), .packet 1 (.subscribe 2 [([118], 1)]),
+       .packet 2 (.pubrel 6), .packet 1 (.pingreq), .packet 2 (.pubrel 5)]
+    bound demo 2 2 = true ∧ bound demo 1 1 = true ∧
+    opened demo 2 evs = [p5, p6] ∧ handed demo 2 evs = [p5, p6] ∧ pub2inOf (run demo evs).1 2 = [] ∧
+    opened demo 1 evs = [o5] ∧ handed demo 1 evs = [] ∧ pub2inOf (run demo evs).1 1 = [⟨5, 0, o5⟩] := by
+  decide
+
+/-! ## (g) persistence of open exchanges -/
+
+/-- **(g), end of connection.**  When a live connection bound to a session object
+kept with CleanSession=0 ends — socket closed / keep-alive expiry (`close`) or a
+DISCONNECT packet — the session store is unchanged and the session object is
+still there with its client identifier, CleanSession=0 and the same inbound
+QoS 2 queue.  (Whatever the will does in between: `onPublish` cannot touch
+sessions, (a).) -/
+theorem C02_persist_stop (b : B) (hI : BInv b) (c r : Nat) (hb : bound b c r = true) (s : Sess)
+    (hs : b.getSess r = some s) (hcl : s.clean = false) (ev : Ev)
+    (hev : ev = .close c ∨ ev = .packet c .disconnect) :
+    (step b ev).1.store = b.store ∧
+    ∃ s', (step b ev).1.getSess r = some s' ∧ s'.clean = false ∧ s'.cid = s.cid ∧ s'.pub2in = s.pub2in := by
+  obtain ⟨_, cn, s0, hc, ha, hs0, hr, _, _⟩ := bound_sess hI hb
+  subst hr
+  rw [hs] at hs0; cases hs0
+  rcases hev with rfl | rfl
+  · obtain ⟨h1, s', h2, h3, h4, h5, _⟩ := stop_persist hc ha hs hcl
+    exact ⟨h1, s', h2, h3, h4, h5⟩
+  · obtain ⟨h1, s', h2, h3, h4, h5, _⟩ := disconnect_persist hc ha hs hcl
+    exact ⟨h1, s', h2, h3, h4, h5⟩
+
+/-- **(g), resumption.**  An accepted CONNECT with CleanSession=0 whose client
+identifier the store maps to a session object kept with CleanSession=0 is
+answered `CONNACK(SP=1, 0)`, and the new connection is live and bound to that
+same session object, whose inbound QoS 2 queue — the open exchanges — is
+unchanged: the PUBRELs of the new connection complete them (`C02_pubrel`). -/
+theorem C02_resume (b : B) (c : Nat) (req : Connect) (r : Nat) (s : Sess)
+    (hd : connectDecode req = .inr true) (hne : req.clientId.isEmpty = false) (hcl : req.clean = false)
+    (hst : b.storeGet req.clientId = some r) (hs : b.getSess r = some s) (hsc : s.clean = false) :
+    (first b c (.connect req) true).2 = [.send c (.connack true 0)] ∧
+    bound (first b c (.connect req) true).1 c r = true ∧
+    pub2inOf (first b c (.connect req) true).1 r = s.pub2in ∧
+    ∃ s', sessOf (first b c (.connect req) true).1 c = some s' ∧ s'.ref = r ∧ s'.pub2in = s.pub2in :=
+  first_resume c req r s hd hne hcl hst hs hsc
+
+/-- **(g), both together.**  Exchanges open on a CleanSession=0 session when its
+connection ends are open on the connection that next resumes the session. -/
+theorem C02_persist (b : B) (hI : BInv b) (c r : Nat) (hb : bound b c r = true) (s : Sess)
+    (hs : b.getSess r = some s) (hcl : s.clean = false) (ev : Ev)
+    (hev : ev = .close c ∨ ev = .packet c .disconnect)
+    (c' : Nat) (req : Connect) (hd : connectDecode req = .inr true)
+    (hne : req.clientId.isEmpty = false) (hrc : req.clean = false)
+    (hst : b.storeGet req.clientId = some r) :
+    let b1 := (step b ev).1
+    (first b1 c' (.connect req) true).2 = [.send c' (.connack true 0)] ∧
+    bound (first b1 c' (.connect req) true).1 c' r = true ∧
+    pub2inOf (first b1 c' (.connect req) true).1 r = pub2inOf b r := by
+  obtain ⟨h1, s', h2, h3, _, h5⟩ := C02_persist_stop b hI c r hb s hs hcl ev hev
+  have hst' : (step b ev).1.storeGet req.clientId = some r := by
+    unfold B.storeGet at hst ⊢; rw [h1]; exact hst
+  obtain ⟨g1, g2, g3, _⟩ := first_resume c' req r s' hd hne hrc hst' h2 h3
+  refine ⟨g1, g2, ?_⟩
+  rw [g3, h5]; simp [pub2inOf, hs]
+
+/-- **(g), clean start.**  An accepted CONNECT with CleanSession=1 is answered
+`CONNACK(SP=0, 0)` and the new connection is bound to a new session object (the
+next fresh reference) whose inbound QoS 2 queue is empty; by `C02_queue_frame`
+no existing queue is changed. -/
+theorem C02_clean_start (b : B) (c : Nat) (req : Connect)
+    (hd : connectDecode req = .inr true) (hcl : req.clean = true) :
+    (first b c (.connect req) true).2 = [.send c (.connack false 0)] ∧
+    bound (first b c (.connect req) true).1 c b.nextRef = true ∧
+    ∃ s', sessOf (first b c (.connect req) true).1 c = some s' ∧ s'.ref = b.nextRef ∧ s'.pub2in = [] := by
+  apply first_fresh c req hd
+  have : (cidOf c req).2 = true := by
+    unfold cidOf; split <;> simp [hcl]
+  rw [this]; rfl
+
+/-- Connection 1 ("a", CleanSession=0, session object 1) has exchange 5 open when
+its socket closes; connection 3 resumes "a": SP=1, exchange 5 still open with
+its content; PUBREL 5 on connection 3 hands it on (to the callback, and to
+connection 3 itself, for which the session's subscription to `t` was
+re-established) and is answered PUBCOMP 5.  Connection 4 then connects as "a" with CleanSession=1: SP=0, new
+session object 3 with an empty queue. -/
+example :
+    let p5 : Pub := { qos := 2, topic := [116], pktid := 5, payload := [1] }
+    let evs : List Ev :=
+      [.packet 1 (.publish p5), .close 1, .first 3 (connectPkt [97] false) true]
+    let b3 := (run demo evs).1
+    (run demo evs).2 = [[.send 1 (.pubrec 5)], [.closed 1], [.send 3 (.connack true 0)]] ∧
+    bound b3 3 1 = true ∧ pub2inOf b3 1 = [⟨5, 0, p5⟩] ∧
+    (step b3 (.packet 3 (.pubrel 5))).2 =
+      [.call 1000 { p5 with qos := 1 }, .send 3 (.publish p5), .send 3 (.pubcomp 5)] ∧
+    (step b3 (.first 4 (connectPkt [97] true) true)).2 = [.send 4 (.connack false 0)] ∧
+    bound (step b3 (.first 4 (connectPkt [97] true) true)).1 4 3 = true ∧
+    pub2inOf (step b3 (.first 4 (connectPkt [97] true) true)).1 3 = [] := by
+  decide
+
+/-! ## The reference broker agrees
+
+`Spec/Broker.lean` (written from MQTT 3.1.1, not from the code) keeps the open
+exchanges of a connection as `open2 : List (id, PUBREL seen, first PUBLISH)`.
+`toOpen2` reads the model's queue that way. -/
+
+open Mqtt.Spec.Broker in
+/-- Step simulation on the QoS 2 part: if the reference broker's `open2` of
+connection `c` is the model's queue, then on a QoS 2 PUBLISH both answer exactly
+`[PUBREC id]`, on a PUBREL the model hands on `releaseAll` of the released entries
+and the reference broker accepts exactly their contents in the same order, both
+followed by `PUBCOMP id` — and afterwards `open2` is again the model's queue. -/
+theorem C02_reference_open2 (b : B) (hI : BInv b) (c : Nat) (hl : b.alive c = true) (s : Sess)
+    (hs : sessOf b c = some s) (ss : S) (scn : Spec.Broker.Conn) (hc : getConn ss c = some scn)
+    (ho : scn.open2 = toOpen2 s.pub2in) :
+    (∀ p : Pub, p.qos = 2 →
+      (packet b c (.publish p)).2 = [.send c (.pubrec p.pktid)] ∧
+      (step1 ss (.packet c (.publish p))).2 = [.send c (.pubrec p.pktid)] ∧
+      ∃ s' scn', sessOf (packet b c (.publish p)).1 c = some s' ∧
+        getConn (step1 ss (.packet c (.publish p))).1 c = some scn' ∧ scn'.open2 = toOpen2 s'.pub2in) ∧
+    (∀ id : Nat,
+      let rel := (q2Acked (q2Ack s.pub2in id)).2
+      let rest := (q2Acked (q2Ack s.pub2in id)).1
+      (packet b c (.pubrel id)).2 =
+        (releaseAll (b.setSess { s with pub2in := rest }) rel).2 ++ [.send c (.pubcomp id)] ∧
+      (step1 ss (.packet c (.pubrel id))).2 =
+        (specReleaseAll (setConn ss { scn with open2 := toOpen2 rest }) (rel.map (·.msg))).2 ++
+          [.send c (.pubcomp id)] ∧
+      ∃ s' scn', sessOf (packet b c (.pubrel id)).1 c = some s' ∧
+        getConn (step1 ss (.packet c (.pubrel id))).1 c = some scn' ∧ scn'.open2 = toOpen2 s'.pub2in) := by
+  constructor
+  · intro p hq
+    obtain ⟨s0, h0, h1, h2, _⟩ := C02_qos2_publish b hI c hl p hq
+    rw [hs] at h0; cases h0
+    obtain ⟨g1, scn', g2, g3⟩ := spec_publish2 ss c scn s.pub2in p hc ho hq
+    exact ⟨by rw [h1], g1, _, scn', h2, g2, g3⟩
+  · intro id
+    obtain ⟨s0, h0, h1, _, _, h4, _⟩ := C02_pubrel b hI c hl id
+    rw [hs] at h0; cases h0
+    obtain ⟨g1, scn', g2, g3⟩ := spec_pubrel ss c scn s.pub2in id hc ho
+    exact ⟨by rw [h1], g1, _, scn', h4, g2, g3⟩
+
+/-- the hypotheses are met along a run of both machines: after the demo events,
+two QoS 2 PUBLISHes and an out-of-order PUBREL on connection 2, the reference
+broker's `open2` is the model's queue (5 waiting, 6 marked) -/
+example :
+    let evs : List Ev := demoEvs ++
+      [.packet 2 (.publish { qos := 2, topic := [116], pktid := 5, payload := [1] }),
+       .packet 2 (.publish { qos := 2, topic := [116], pktid := 6, payload := [3] }),
+       .packet 2 (.pubrel 6)]
+    let b := (run {} evs).1
+    let ss := evs.foldl (fun s e => (Mqtt.Spec.Broker.step s e).1) {}
+    b.alive 2 = true ∧
+    (Mqtt.Spec.Broker.getConn ss 2).map (·.open2) = (sessOf b 2).map (fun s => toOpen2 s.pub2in) ∧
+    (sessOf b 2).map (fun s => toOpen2 s.pub2in) =
+      some [(5, false, { qos := 2, topic := [116], pktid := 5, payload := [1] }),
+            (6, true, { qos := 2, topic := [116], pktid := 6, payload := [3] })] := by
+  decide +kernel
+
 end Mqtt.Properties.C02
